@@ -24,7 +24,8 @@ pub mod io {
         pub uninterp spec fn data(&self) -> Seq<u8>;
         pub uninterp spec fn pos(&self) -> int;
         #[verifier::external_body]
-        pub fn new(inner: T) -> (r: Cursor<T>) ensures r.data() == inner.byte_seq(), r.pos() == 0 { unimplemented!() }
+        // (a Rust allocation never exceeds isize::MAX bytes: assumed of the underlying buffer)
+        pub fn new(inner: T) -> (r: Cursor<T>) ensures r.data() == inner.byte_seq(), r.pos() == 0, r.data().len() <= isize::MAX { unimplemented!() }
         // one byte at the cursor, or Err(UnexpectedEof) at the end; never panics
         #[verifier::external_body]
         pub fn read_u8(&mut self) -> (r: Result<u8>)
